@@ -42,6 +42,9 @@ func NewTok(id, class string) *Tok {
 type List struct {
 	Elems []Value
 	IsNil bool
+	// View: produced by slicing another slice or array; the model copies the elements, so a store through a view is
+	// not seen by the base.  Spare: the view is shorter than its base, an append would overwrite the base's elements.
+	View, Spare bool
 }
 
 type Tuple []Value
@@ -572,6 +575,9 @@ func (ip *Interp) store(addr, val Value) {
 		if a.Arr != nil {
 			a.Arr.Elems[a.I] = val
 		} else {
+			if a.List.View {
+				undecided("store through a re-sliced slice (aliasing with its base is not modelled)")
+			}
 			a.List.Elems[a.I] = val
 		}
 	case *Tok:
@@ -703,6 +709,9 @@ func (ip *Interp) builtin(name string, args []Value, site ssa.CallInstruction) V
 			} else {
 				undecided("append to %s", Show(args[0]))
 			}
+		}
+		if base.Spare {
+			undecided("append to a slice that shares its backing array with a longer one (aliasing is not modelled)")
 		}
 		out := &List{Elems: append([]Value(nil), base.Elems...), IsNil: base.IsNil}
 		if len(args) > 1 {
@@ -904,7 +913,8 @@ func (ip *Interp) step(f *frame, v ssa.Value) Value {
 		if lo < 0 || lo > hi || hi > len(elems) {
 			panic(&GoPanic{Msg: "slice bounds out of range"})
 		}
-		return &List{Elems: append([]Value(nil), elems[lo:hi]...)}
+		_, fromList := base.(*List)
+		return &List{Elems: append([]Value(nil), elems[lo:hi]...), View: fromList && len(elems) > 0, Spare: hi < len(elems)}
 	case *ssa.TypeAssert:
 		val := ip.eval(f, x.X)
 		var ok, known bool
